@@ -7,6 +7,7 @@ package main
 import (
 	"bytes"
 	"fmt"
+	"reflect"
 	"runtime"
 	"strconv"
 	"sync"
@@ -42,6 +43,7 @@ type sproc struct {
 	done    bool
 	parked  string
 	panicV  string
+	gid     uint64 // goroutine of the process (0 = not known yet)
 }
 
 type Sched struct {
@@ -81,11 +83,12 @@ func (s *Sched) hook(point string, args ...any) {
 			if q, ok := s.procs[name]; ok && !q.started {
 				p = q
 				p.started = true
+				p.gid = gid
 				s.byGid[gid] = p
 			}
 		}
 	}
-	ev := HookEvent{Seq: atomic.AddInt64(&s.seq, 1), Point: point, Args: fmt.Sprint(args...)}
+	ev := HookEvent{Seq: atomic.AddInt64(&s.seq, 1), Point: point, Args: safeArgs(args)}
 	if p != nil {
 		ev.Proc = p.name
 	}
@@ -96,6 +99,31 @@ func (s *Sched) hook(point string, args ...any) {
 		p.arrive <- point
 		<-p.gate
 	}
+}
+
+// safeArgs renders the arguments of a hook point without looking into objects of the stack (a hook may be handed a
+// manager or sender whose fields are being changed by other goroutines): scalars by value, everything else by identity
+func safeArgs(args []any) string {
+	out := ""
+	for i, a := range args {
+		if i > 0 {
+			out += " "
+		}
+		switch v := a.(type) {
+		case nil:
+			out += "nil"
+		case string, bool, int, int64, uint, uint64, uint32, int32, float64, time.Duration:
+			out += fmt.Sprint(v)
+		default:
+			switch reflect.ValueOf(a).Kind() {
+			case reflect.Ptr, reflect.Chan, reflect.Map, reflect.Func, reflect.Slice, reflect.UnsafePointer:
+				out += fmt.Sprintf("%T@%p", a, a)
+			default:
+				out += fmt.Sprintf("%T", a)
+			}
+		}
+	}
+	return out
 }
 
 // Step lets process name take its next step: start it, or release it from the point where it is parked; returns the
@@ -115,7 +143,8 @@ func (s *Sched) Step(name string) (at string, ok bool) {
 		p.started = true
 		go func() {
 			s.mu.Lock()
-			s.byGid[curGid()] = p
+			p.gid = curGid()
+			s.byGid[p.gid] = p
 			s.mu.Unlock()
 			defer func() {
 				if r := recover(); r != nil {
@@ -141,6 +170,51 @@ func (s *Sched) Step(name string) (at string, ok bool) {
 		return at, true
 	case <-time.After(s.watchdog):
 		return "", false
+	}
+}
+
+// goroutineAlive reports whether the goroutine with this id still exists (read from the runtime's own goroutine dump, so
+// it does not depend on how many other goroutines come and go meanwhile)
+func goroutineAlive(gid uint64) bool {
+	if gid == 0 {
+		return true
+	}
+	buf := make([]byte, 1<<16)
+	for {
+		n := runtime.Stack(buf, true)
+		if n < len(buf) {
+			buf = buf[:n]
+			break
+		}
+		buf = make([]byte, 2*len(buf))
+	}
+	needle := []byte("goroutine " + strconv.FormatUint(gid, 10) + " [")
+	return bytes.HasPrefix(buf, needle) || bytes.Contains(buf, append([]byte("\n"), needle...))
+}
+
+// WaitParkOrExit waits until a process that was just released parks at its next gated point (returns the point) or its
+// goroutine has ended (returns ""); ok=false if neither happened within d
+func (s *Sched) WaitParkOrExit(p *sproc, d time.Duration) (at string, ok bool) {
+	deadline := time.Now().Add(d)
+	for {
+		select {
+		case at = <-p.arrive:
+			return at, true
+		default:
+		}
+		if !goroutineAlive(p.gid) {
+			// it may have parked and been counted as gone never: an arrival is sent before the goroutine blocks, so look once more
+			select {
+			case at = <-p.arrive:
+				return at, true
+			default:
+			}
+			return "", true
+		}
+		if time.Now().After(deadline) {
+			return "", false
+		}
+		time.Sleep(100 * time.Microsecond)
 	}
 }
 
